@@ -1,5 +1,6 @@
 #![allow(dead_code)]
 mod allocsc;
+mod c14;
 mod crash;
 mod enumchk;
 mod extra;
@@ -15,6 +16,9 @@ mod simio;
 mod spec;
 mod world;
 
+#[global_allocator]
+static GLOBAL: c14::CountingAlloc = c14::CountingAlloc;
+
 fn main() {
     let args: Vec<String> = std::env::args().collect();
     if args.len() < 2 {
@@ -28,6 +32,7 @@ fn main() {
     let code = match args[1].as_str() {
         "replay" => props::replay(&args[2]),
         "selftest" => props::selftest(),
+        "c14-worker" => c14::worker(&args[2..]),
         "debug-frag" => {
             props::debug_frag();
             0
